@@ -93,6 +93,8 @@ class Run(object):
         self.w = cls(self.f, blocked=blocked)
         self.records = []
         self.finals = 0
+        self.enters = 0
+        self.others_done = 0
         self.first_final_bytes = None
 
     def file_bytes(self):
@@ -122,6 +124,7 @@ class Run(object):
                 w2.close()
                 keep.append((g, w2))
             self.others = keep            # stay alive: no object address can be recycled
+            self.others_done += 1
             if self.file_bytes() != before:
                 return 'finalising other writers changed this file'
             return None
@@ -132,6 +135,7 @@ class Run(object):
                 return 'entering the context manager changed the file'
             if got is not self.w:
                 return '__enter__ did not return the writer'
+            self.enters += 1
             return None
         before = self.file_bytes() if op[0] == 'exit_exc' else None
         if op[0] == 'close':
@@ -173,7 +177,10 @@ class Run(object):
         except Exception:
             pos = -1
         return (self.cfg, hashlib.sha1(data).hexdigest()[:16], len(data), pos, tuple(attrs),
-                tuple(len(r) for r in self.records), min(self.finals, 1))
+                tuple(len(r) for r in self.records), min(self.finals, 1),
+                # operations that must not matter are part of the key all the same: what they leave behind may live
+                # outside the writer object (module-level state of the library), where no attribute shows it
+                self.enters, self.others_done)
 
     def dispose(self):
         try:
